@@ -269,11 +269,10 @@ Qed.
 Definition gens_of (T : table) : list Z := map gen_of T.
 
 (* O is the (sorted) original table, T the current one, A the aliases dictionary:
-   T is sorted by generality, has no key bit outside a mask, and every key matched by O is
+   T is sorted by generality and every key matched by O is
    first-matched in T by an entry that routes like O's and one of whose aliases matches the key. *)
 Record Inv (O T : table) (A : aliases) : Prop := {
   inv_sorted : sortedz (gens_of T);
-  inv_wf : forall x, In x T -> wfb (km_of x);
   inv_route : forall k e, lookup O k = Some e ->
       exists t, lookup T k = Some t /\ routes_like e t
                 /\ exists c, In c (al A t) /\ km_matches c k = true }.
@@ -371,8 +370,8 @@ Proof.
   (* every member is matched-through by the merged key-mask *)
   assert (Hcover : forall x, In x (members T E) -> matches x k = true -> km_matches mkm k = true).
   { intros x Hx Hmx. rewrite Hkm. apply (merge_km_covers _ x k Hx); [| exact Hmx].
-    apply (inv_wf _ _ _ HInv). apply In_members in Hx. destruct Hx as [i [_ Hi]].
-    apply (nth_error_In _ _ Hi). }
+    (* an entry that matches a key has no key bit outside its mask *)
+    apply wf_km_wfb. apply (matches_wf _ k). exact Hmx. }
   (* an entry strictly before position idx has generality below the merge's; so it is not mkm *)
   assert (Hgenlt : forall q x, (q < idx)%nat -> nth_error T q = Some x -> km_of x <> mkm).
   { intros q x Hq Hx Heq.
@@ -604,13 +603,6 @@ Proof.
       * simpl. unfold gen_of at 2. simpl. lia.
       * apply in_map_iff in Hy. destruct Hy as [w [<- Hw]]. apply keep_In in Hw.
         rewrite Forall_forall in Hge. specialize (Hge (gen_of w) (in_map _ _ _ Hw)). lia.
-  - (* well-formed *)
-    intros x Hx. rewrite apply_table_split in Hx by (simpl; lia). rewrite Nat.sub_0_r in Hx.
-    apply in_app_or in Hx. destruct Hx as [Hx | Hx].
-    + apply keep_In in Hx. apply (inv_wf _ _ _ HInv). apply (In_firstn _ _ _ Hx).
-    + apply in_app_or in Hx. destruct Hx as [[<- | []] | Hx].
-      * change (km_of n) with mkm. rewrite Hkm. apply merge_km_wfb. discriminate.
-      * apply keep_In in Hx. apply (inv_wf _ _ _ HInv). apply (In_skipn _ _ _ Hx).
   - (* routing *)
     intros k e Hlk. destruct Hidx as [Hnd Hlt].
     apply (preserve_route O T A E first A' HInv Hlt Hroute); try assumption.
